@@ -336,6 +336,9 @@ func runC19(c *Ctx, r *Report, tier string) {
 	}
 	for _, ret := range returnsOf(st) {
 		if !isConstNil(c.resolve(ret.Results[0])) {
+			if strings.HasPrefix(c.term(ret.Results[0]), "call:(*Group).checkForDuplicateFlags(") {
+				r.OK("CHECKS", c.fname(st), "scanType's result is the duplicate check's", c.ipos(ret), "return g.checkForDuplicateFlags()")
+			}
 			continue
 		}
 		c.mptRule(r, "CHECKS", st, ret, "scanType returns nil only after the duplicate check", c.isCallTo("(*Group).checkForDuplicateFlags"), "call checkForDuplicateFlags", nil)
@@ -585,6 +588,12 @@ func (c *Ctx) documentedTagKeys(r *Report) map[string]bool {
 	return out
 }
 
+// exactTagFields: model fields that are the tag's value itself under every condition.
+var exactTagFields = map[string]bool{
+	"Option.Description": true, "Option.LongName": true, "Option.Default": true, "Option.EnvDefaultKey": true, "Option.EnvDefaultDelim": true,
+	"Option.OptionalValue": true, "Option.ValueName": true, "Option.DefaultMask": true, "Option.Choices": true,
+}
+
 // modelRules: tag → model mapping of the literals built by the scans.
 func (c *Ctx) modelRules(r *Report, ss *ssa.Function) {
 	get := func(k string) string { return `call:(*multiTag).Get(new:multiTag, "` + k + `")` }
@@ -617,7 +626,12 @@ func (c *Ctx) modelRules(r *Report, ss *ssa.Function) {
 		}
 		for _, w := range wants {
 			t, ok := stored[w.field]
-			r.Check(ok && strings.Contains(t, w.must), "MODEL", fname, typ+"."+w.field, c.ipos(lit), "← "+w.must, typ+"."+w.field+" is "+trunc(t, 140)+", expected to derive from "+w.must)
+			good := ok && strings.Contains(t, w.must)
+			if good && exactTagFields[typ+"."+w.field] {
+				// the attribute is the tag's text as written, for every kind of field (no alternative value)
+				good = t == w.must
+			}
+			r.Check(good, "MODEL", fname, typ+"."+w.field, c.ipos(lit), "← "+w.must, typ+"."+w.field+" is "+trunc(t, 140)+", expected to derive from "+w.must)
 		}
 	}
 	checkLit(ss, "Option", []want{
